@@ -570,11 +570,38 @@ func (m *machine) rangeIter(x value, t types.Type) iterator {
 	case string:
 		return &strIter{s: xv}
 	case *symstr:
-		panic(pathEnd{kind: endUnsupported, msg: "range over string with symbolic bytes"})
+		return &symStrIter{s: xv}
 	}
 	panic(engineError{fmt.Sprintf("range over %T", x)})
 }
 
 func decodeRune(s string) (rune, int) {
 	return utf8.DecodeRuneInString(s)
+}
+
+
+// symStrIter ranges over a string with symbolic bytes by running the real
+// unicode/utf8.DecodeRuneInString on the remaining suffix (forks as needed).
+type symStrIter struct {
+	s *symstr
+	i int
+}
+
+func (it *symStrIter) next(m *machine) value {
+	if it.i >= len(it.s.b) {
+		return tuple{mkBool(false), mkInt(0), mkInt(0)}
+	}
+	pkg := m.prog.ImportedPackage("unicode/utf8")
+	if pkg == nil {
+		panic(pathEnd{kind: endUnsupported, msg: "range over symbolic string: unicode/utf8 not loaded"})
+	}
+	fn := pkg.Func("DecodeRuneInString")
+	th := m.cur
+	saved := th.fr
+	r := th.call(th.fr, fn, []value{mkStr(it.s.b[it.i:])}, nil).(tuple)
+	th.fr = saved
+	size := int(m.concretize(r[1].(sc), 64, "rune-size"))
+	i := it.i
+	it.i += size
+	return tuple{mkBool(true), mkInt(uint64(i)), r[0]}
 }
